@@ -317,6 +317,9 @@ func (w *metaWorld) run(c *engine.Ctx, mc metaCase) {
 			case "middle":
 				k := len(rest) / 2
 				cfg.NextProtos = append(append(append([]string{}, rest[:k]...), pref), rest[k:]...)
+			case "lead-extra":
+				// the application also puts a protocol of its own in front of everything
+				cfg.NextProtos = append(append([]string{"app-lead-proto"}, rest...), pref)
 			case "then-appended":
 				cfg.NextProtos = append(append(append([]string{}, rest...), pref), "late-1", "late-2")
 			}
@@ -457,7 +460,7 @@ func runMeta(c *engine.Ctx) engine.Result {
 				}
 			}
 		}
-		for _, pos := range []string{"first", "middle", "then-appended"} {
+		for _, pos := range []string{"first", "middle", "then-appended", "lead-extra"} {
 			for _, ex := range []string{"none", "one", "twenty", "duplicates"} {
 				for _, sto := range []string{world.Inmem, world.Ordered} {
 					cases = append(cases, metaCase{Kind: "honest", State: "flat", Extras: ex, Storage: sto, Seed: rng.Int63(), PrefPos: pos})
